@@ -36,7 +36,7 @@ PROPS["C12"] = {
         ], "opts": {"thorough": {"budget_s": 6000}}},
         {"pkg": "input", "hdir": "input", "specs": [
             _c12("tcp/plain/L<=6", "VerifC12Plain", {"L": "6", "zeros": "0"}, tier="thorough"),
-        ], "opts": {"thorough": {"budget_s": 6000}}},
+        ], "opts": {"thorough": {"budget_s": 9000}}},
         {"pkg": "input", "hdir": "input", "specs": [
             _c12("tcp/plain/two-cuts/L<=6", "VerifC12Cuts", {"L": "6"}, tier="thorough"),
         ], "opts": {"thorough": {"budget_s": 6000}}},
